@@ -241,7 +241,7 @@ class Engine:
             vecs = [v for v in p["vecs"] if len(v) == len(ptys)]
             for vi, vec in enumerate(vecs):
                 tag = feature_tag(pm) if p["key"].startswith(("arith", "c")) and not p["key"].startswith(("cast", "cfg")) else ""
-                wasm_cases.append({"id": "%s%s@%d" % (p["key"], tag, vi), "mods": [wp], "ext": p["ext"], "fuel": 6000,
+                wasm_cases.append({"id": "%s%s@%d" % (p["key"], tag, vi), "mods": [wp], "ext": p["ext"], "fuel": 10000,
                                    "calls": [{"fn": p["fn"], "args": [wasm_arg(v, t) for v, t in zip(vec, ptys)]}]})
                 meta.append({"p": p, "pm": pm, "vec": vec, "ptys": ptys, "ret": fdef[0]["ret"], "layout": layout, "wm": wm})
         ctx.cov["translation_outcomes"] = outcomes
@@ -260,9 +260,10 @@ class Engine:
                 raise MachineryError("no observation for wasm case %s" % wc["id"])
             ob = o["obs"]
             st = ob["status"]
-            if st in ("fuel", "outofmodel"):
+            if st == "outofmodel":
                 skipped[st] = skipped.get(st, 0) + 1
                 continue
+            # (a wasm execution that is still running after 10 x the IR step budget counts as not terminating)
             outcome = "ok" if st == "ok" else ("trap:" + o["why"] if st == "trap" else "error:" + st + ":" + o["why"])
             rt = mt["ret"]
             ret = []
@@ -281,7 +282,7 @@ class Engine:
             obs = {"outcome": outcome, "ret": ret, "globals": globs if st == "ok" else [], "hascalls": st == "ok", "calls": calls}
             ir_cases.append({"id": wc["id"], "mods": [mt["pm"]], "fn": mt["p"]["fn"],
                              "argv": [[project_ir.limbs(v, TYB[t]) for v, t in zip(mt["vec"], mt["ptys"])]],
-                             "ext": mt["p"]["ext"], "fuel": 6000, "obs": obs})
+                             "ext": mt["p"]["ext"], "fuel": 1500, "obs": obs})
             ir_meta.append((wc, mt, o))
             ctx.count(wc["id"])
         ctx.cov["skipped_wasm"] = skipped
